@@ -136,9 +136,13 @@ func buildScriptX(fr *FuncResult, upto int, goal string, pre string, assumptions
 	myRegion := ""
 	if pathHyps && fr.Spec.Opts["region-hyps"] != "" {
 		myRegion = hintRegion(fr.Facts[upto].Info)
-		if strings.HasSuffix(myRegion, "[n]") || strings.HasSuffix(myRegion, "[result]") {
+		if strings.HasSuffix(myRegion, "[n]") || strings.HasSuffix(myRegion, "[result]") || strings.HasSuffix(myRegion, "[t.root]") {
 			myRegion = "" // a goal about a whole subtree combines the hints of its regions
 		}
+	}
+	myPart := ""
+	if pathHyps && fr.Spec.Opts["region-hyps"] != "" {
+		myPart = hintPart(fr.Facts[upto].Info)
 	}
 	for j := 0; j < upto; j++ {
 		if assumptionsOnly && fr.Facts[j].Oblig {
@@ -152,6 +156,12 @@ func buildScriptX(fr *FuncResult, upto int, goal string, pre string, assumptions
 			// without the hints about the other regions
 			if myRegion != "" {
 				if r := hintRegion(fr.Facts[j].Info); r != "" && r != myRegion {
+					continue
+				}
+			}
+			// a hint about one conjunct predicate (... ==> ioK(x, ...)) does not need the hints about its sibling conjuncts
+			if myPart != "" {
+				if q := hintPart(fr.Facts[j].Info); q != "" && q != myPart {
 					continue
 				}
 			}
@@ -208,6 +218,28 @@ func hintRegion(info string) string {
 		return ""
 	}
 	return strings.TrimSpace(t[in+4 : e])
+}
+
+// hintPart: the conjunct predicate a hint establishes when its text ends in "==> ioXX(x, ...)))" or "(ioXX(W, ...))".
+func hintPart(info string) string {
+	k := strings.LastIndex(info, "io")
+	if k < 0 || hintAntecedent(info) == "" {
+		return ""
+	}
+	t := info[k:]
+	p := strings.Index(t, "(")
+	if p < 3 || p > 6 {
+		return ""
+	}
+	// must be the last call in the text
+	if strings.Count(t, "(") != 1+strings.Count(t[p+1:], "(") {
+		return ""
+	}
+	pre := strings.TrimRight(info[:k], " ")
+	if !strings.HasSuffix(pre, "==>") && !strings.HasSuffix(pre, "(") {
+		return ""
+	}
+	return t[:p]
 }
 
 func runSolver(sd solverDef, script string, file string, timeout time.Duration, seed int) (string, string, float64) {
